@@ -31,8 +31,30 @@ def for_each_body(facts, body):
 # C13
 # ----------------------------------------------------------------------------------------
 
+def pow2(e):
+    """x * 2^k spelled as x << k (the two are the same value in wrapping arithmetic): one spelling for comparisons."""
+    e = norm(e)
+    if not isinstance(e, tuple):
+        return e
+    if e[0] == "bin":
+        a, b = pow2(e[2]), pow2(e[3])
+        if e[1] == "Mul":
+            for x, c in ((a, b), (b, a)):
+                if c[0] == "const" and isinstance(c[1], int) and not isinstance(c[1], bool) and c[1] > 1 and (c[1] & (c[1] - 1)) == 0:
+                    return ("bin", "Shl", x, ("const", c[1].bit_length() - 1, "shamt"))
+        return ("bin", e[1], a, b)
+    if e[0] == "cast":
+        return ("cast", e[1], pow2(e[2]))
+    return e
+
+
 def nibble_parts(e):
     """Decompose ((row[idx] >> shift) & 0x0f) -> (idx, shift, mask) or None."""
+    r = _nibble_parts(e)
+    return None if r is None else (r[0], pow2(r[1]), r[2], r[3])
+
+
+def _nibble_parts(e):
     e = norm(e)
     if e[0] == "bin" and e[1] == "BitAnd":
         for x, m in ((e[2], e[3]), (e[3], e[2])):
@@ -150,7 +172,7 @@ def check_C13(rep, fl):
         return
     gidx, gshift, gmask, _ = g
     want_idx = norm(("cast", "usize", ("bin", "Div", i, ("const", 2, "u64"))))
-    want_shift = norm(("bin", "Mul", ("bin", "BitAnd", i, ("const", 1, "u64")), ("const", 4, "u64")))
+    want_shift = pow2(("bin", "Mul", ("bin", "BitAnd", i, ("const", 1, "u64")), ("const", 4, "u64")))
     rep.check(gidx == want_idx and gshift == want_shift and gmask == 15, "R13.1", fl, get, "cell(i)",
               "get(i) reads nibble (i&1) of byte i/2: (row[i/2] >> ((i&1)*4)) & 0x0f",
               "get(i) reads byte %s shift %s mask %#x; expected byte i/2, shift (i&1)*4, mask 0x0f" % (show(gidx), show(gshift), gmask))
@@ -178,7 +200,7 @@ def check_C13(rep, fl):
         for x, y in ((rv[2], rv[3]), (rv[3], rv[2])):
             if is_call(x, "index_mut") or is_call(x, "IndexMut::index_mut"):
                 delta = y
-    okd = delta is not None and delta[0] == "bin" and delta[1] == "Shl" and delta[2] == ("const", 1, "u8") and norm(inc.expand(delta[3])) == gshift
+    okd = delta is not None and delta[0] == "bin" and delta[1] == "Shl" and delta[2] == ("const", 1, "u8") and pow2(inc.expand(delta[3])) == gshift
     rep.check(okd, "R13.2", fl, inc, "delta", "the write adds exactly 1 << ((i&1)*4): one unit of the addressed nibble",
               "the write is %s; expected row[i/2] + (1 << ((i&1)*4))" % show(rv), loc=st["sp"])
     # guard: (row[idx] >> shift) & 0x0f < 15 on every path to the write
@@ -275,7 +297,8 @@ def check_sketch_sizing(rep, fl, rule):
     if len(aggs) != 1:
         rep.missing(rule, fl, "CountMinSketch::new: constructor aggregate not found")
         return
-    f = dict(zip(aggs[0][1][4], aggs[0][1][3]))
+    # (the rounded width may come back through a fallible helper: `let ctrs = Self::rounded_width(ctrs)?`)
+    f = {k_: resolve_payloads(new, v_) for k_, v_ in zip(aggs[0][1][4], aggs[0][1][3])}
     mask_e = f["mask"]
     rows = f["rows"]
     widths = []
@@ -439,7 +462,7 @@ def check_counters_plumbing(rep, fl, rule="R13.8"):
     forwards(ph, "policy::PolicyInner::with_hasher", 0, V(ph.local_name.get(1, "arg1")) if ph is not None else None, "policy -> inner")
     pi = facts.body("policy::PolicyInner::with_hasher", required=False)
     forwards(pi, TLFU + "::new", 0, V(pi.local_name.get(1, "arg1")) if pi is not None else None, "inner -> TinyLFU")
-    tn = facts.body(TLFU + "::new")
+    tn = facts.flat(facts.body(TLFU + "::new"))   # `Ok(Self {..})` and `CountMinSketch::new(n).map(|ctr| Self {..})` alike
     n = V(tn.local_name.get(1, "arg1"))
     cf = None
     for bi, si, st, e in agg_nodes(tn, "TinyLFU"):
